@@ -102,7 +102,7 @@ impl Property for C16 {
 
     fn rule(&self) -> String {
         "triples (a, b, c) of one type from per-type pools containing every special value (INT: extremes, 2^53 and 2^53+1; REAL: +-0.0, +-inf, NaN, subnormal, 1e308; TEXT: empty, prefix pairs, case pairs, non-BMP; \
-         TIMESTAMP / INTERVAL: different spellings of equal instants), plus INT x REAL pairs. The laws are observed through queries on rows carrying these values: trichotomy of a<b / a=b / a>b, consistency of <=, >=, !=, \
+         TIMESTAMP / INTERVAL: different spellings of equal instants), plus INT x REAL pairs (comparison laws, and GROUP BY / DISTINCT over a key that is the INT on some rows and the REAL on others, and a join of an INT column with a REAL column). The laws are observed through queries on rows carrying these values: trichotomy of a<b / a=b / a>b, consistency of <=, >=, !=, \
          antisymmetry (b?a mirrored), reflexivity, transitivity over (a,b,c); GROUP BY (rows share a group iff `=`, groups ascending by `<`), DISTINCT, COUNT(DISTINCT), MIN/MAX, PERCENTILE(.,0/1), JOIN and array_unique must \
          all agree with the same `=` / `<`; numbers, text and instants additionally against the reference order. Any total order is accepted for NaN. Bounded-exhaustive: all pairs (quick) / all triples (thorough) of every pool. \
          Non-trivial: a triple with >= 1 special value and >= 2 values that compare equal; distinct by case."
@@ -226,6 +226,46 @@ impl Property for C16 {
             }
             if lt && g("lt_rk")? && !g("lt_ik")? {
                 return Err(Failure::new("mixed: transitivity-lt", tctx));
+            }
+            // consumers: an INT and a REAL of equal value are one group / one DISTINCT row / join partners
+            {
+                let mdefs = "CREATE TABLE m(line = '^s=([^;]*);i=([^;]*);r=([^;]*);', line[1] => s INT, line[2] => i INT, line[3] => r REAL); \
+                             CREATE TABLE ti(line = '^k=([^;]*);', line[1] => k INT); CREATE TABLE ur(line = '^k=([^;]*);', line[1] => k REAL);";
+                let key = "CASE WHEN s = 0 THEN i ELSE r END";
+                // the key sequence is i, r, i
+                let rows = vec![format!("s=0;i={};r={};", case.a, case.b), format!("s=1;i={};r={};", case.a, case.b), format!("s=0;i={};r={};", case.a, case.b)];
+                let expect = if eq { 1 } else { 2 };
+                let gq = format!("SELECT COUNT(*) AS n FROM m GROUP BY {}", key);
+                let go = one(mdefs, &gq, &rows)?;
+                if go.result.is_err() {
+                    return Err(Failure::new("mixed: group-by-error", format!("{} | `{}`: {:?}", ctxt, gq, go.result)));
+                }
+                if go.records().len() != expect {
+                    return Err(Failure::new("mixed: group-by-vs-equality", format!("{} | GROUP BY over (i, r, i) gives {:?}", ctxt, go.records())));
+                }
+                if !eq {
+                    // the INT occurs twice: its group comes first iff i < r
+                    let first_is_int = go.records().first().map(|r| r.contains("\"n\":2")).unwrap_or(false);
+                    if first_is_int != lt {
+                        return Err(Failure::new("mixed: group-order-vs-less-than", format!("{} | groups in order {:?}", ctxt, go.records())));
+                    }
+                }
+                let dq = format!("SELECT DISTINCT {} AS k FROM m", key);
+                let d = one(mdefs, &dq, &rows)?;
+                if d.records().len() != expect {
+                    return Err(Failure::new("mixed: distinct-vs-equality", format!("{} | DISTINCT over (i, r, i) prints {:?}", ctxt, d.records())));
+                }
+                let jpath = ctx.file("c16-mixed-joined.txt");
+                write_file(&jpath, format!("k={};\n", case.b).as_bytes());
+                let jq = format!("SELECT ti.k FROM ti INNER JOIN ur::{} ON ti.k = ur.k", quote(&jpath.to_string_lossy()));
+                let j = one(mdefs, &jq, &[format!("k={};", case.a)])?;
+                if j.result.is_err() {
+                    return Err(Failure::new("mixed: join-error", format!("{} | {:?}", ctxt, j.result)));
+                }
+                if (j.records().len() == 1) != eq {
+                    return Err(Failure::new("mixed: join-vs-equality", format!("{} | joining INT {} with REAL {} gives {} row(s)", ctxt, case.a, case.b, j.records().len())));
+                }
+                obs.inner += 3;
             }
             let i: i64 = case.a.parse().unwrap_or(0);
             let r: f64 = case.b.parse().unwrap_or(0.0);
